@@ -226,14 +226,15 @@ def c08_t3(repo, res):
             raise AnalysisError(f"T3: getBH_level1 call in getBH_dict_level2 not reached for {c.name}; skipped={getattr(it, 'skipped', [])[:3]}")
         leaks = {k: sorted(x for x in orgs if x.startswith("P:")) for k, orgs in seen_l1.items()}
         leaks = {k: v for k, v in leaks.items() if v}
-        mutp = [x for x in dom.mutations if x[0].startswith("P:")]
+        mutp = [x for x in dom.mutations if x[0].startswith("P:") or x[0].startswith("A:")]     # caller arrays and class/object state (rank tables)
         res.ob(f"T3:getBH_dict_level2[{c.name}]", not leaks and not mutp,
                {"rule": "T3", "source_type": c.name, "level1_arguments": {k: sorted(v) for k, v in seen_l1.items()}, "in_place_sinks_on_caller_values": [x[4] for x in mutp]})
         for k, v in leaks.items():
             res.add(Finding("T3", "magpylib/_src/fields/field_wrap_BH.py", "getBH_dict_level2", f"{k} reaches getBH_level1 with origins {v}",
                             "a caller-owned array is handed to the computation without a copy"))
         for org, where, line, how, txt in mutp:
-            res.add(Finding("T3", "magpylib/_src/fields/field_wrap_BH.py", where.split(">")[-1], txt, f"caller-owned {org} modified in place ({how})", line))
+            what = f"caller-owned {org}" if org.startswith("P:") else f"shared state {org[2:]} (a class-level table / object attribute)"
+            res.add(Finding("T3", "magpylib/_src/fields/field_wrap_BH.py", where.split(">")[-1], txt, f"{what} modified in place ({how}): a later computation sees the change", line))
     res.require(n_cls >= 10, f"T3: only {n_cls} classes with a functional interface")
     # (4) level 1 / src dict / tiling: no sink on object-held arrays
     for fn, params in (("getBH_level1", dict(field_func=Unknown("ff"), field=Const("B"), position=O({"P:position"}), orientation=O({"P:orientation"}),
@@ -263,6 +264,38 @@ def c08_t3(repo, res):
                 res.add(Finding("T3", "magpylib/_src/fields/field_wrap_BH.py", fn, bad, f"the value handed to the field function may be a view of an object's own "
                                 f"attribute (origins {orgs}): an in-place step of the field function then changes the object", bad.lineno))
     return {}
+
+
+def c08_t4(repo, res, rule="T4"):
+    """the method forms of the field computation (`obj.getB(...)`, the collection's input selection helper) modify neither the receiver
+    nor anything reached through its getters: a getter may hand out the internal list itself (`col.sources` is `col._sources`), so an
+    in-place `+=` / `.append` / `.sort` on what it returned edits the object"""
+    import re as _re
+    n = 0
+    for m, q, fn, cl in repo.all_functions():
+        if cl is None or not (_re.fullmatch(r"get[BHJM]", fn.name) or fn.name == "_validate_getBH_inputs"):
+            continue
+        a = fn.args
+        params = {"self": O({"A:self"})}
+        pos = [x.arg for x in a.posonlyargs + a.args][1:]
+        ndef = len(a.defaults)
+        for p in pos[: len(pos) - ndef] if ndef else pos:
+            params[p] = O({"P:" + p})
+        node = find_ast(m.name, f"{cl.name}.{fn.name}", False)
+        out, dom, it = run_node(m.name, node, params, name=q, summaries={"getBH_level2": lambda d, args, kwargs, nd: FRESH})
+        n += 1
+        res.evaluations += 1
+        mut = [x for x in dom.mutations if x[0].startswith("A:self") or x[0].startswith("P:")]
+        res.ob(f"{rule}:{q}", not mut, {"rule": rule, "method": q, "in_place_sinks": [x[4] for x in mut]})
+        seen = set()
+        for org, where, line, how, txt in mut:
+            if (line, txt) in seen:
+                continue
+            seen.add((line, txt))
+            res.add(Finding(rule, m.rel, where.split(">")[-1], txt, f"{org} is modified in place ({how}) by a field-computation method: the object's own state "
+                            "(e.g. the list handed out by a getter) changes with every call", line))
+    res.require(n >= 8, f"{rule}: only {n} method forms of the field computation found")
+    res.analysed[f"{rule}_methods"] = n
 
 
 # ------------------------------------------------------------------------------------------------ M1 (poses)
